@@ -91,7 +91,7 @@ AUDIT = [
     _e("minimal_lexical::bigint::large_add_from | panic via core::option::Option::<T>::unwrap | x.get_mut(start + index).unwrap()",
        "after try_resize(y.len() + start) succeeded (or x was already long enough) x.len() >= y.len() + start > start + index", ["C04"]),
     # -- resize fill loop --------------------------------------------------------------------------------------------------
-    _e("minimal_lexical::stackvec::{impl#0}::try_resize | vector-invariant at exit (&mut argument) | pub fn try_resize(&mut self, len: usize, value: bigint::Limb) -> Option<()> { if len > self.capacity() { None } else { unsafe { self.resize_",
+    _e("minimal_lexical::stackvec::{impl#0}::try_resize | vector-invariant at exit (&mut argument) | pub fn try_resize(&mut self, len: usize, value: bigint::Limb) -> Option<()>",
        R_FILL, ["C04", "C08", "C12", "C13"]),
     _e("minimal_lexical::stackvec::{impl#6}::deref_mut | from_raw_parts-initialised | slice::from_raw_parts_mut(ptr, self.len())",
        R_FILL + " (inside the loop the exposed slice still has the old length, which was initialised on entry)", ["C04", "C08", "C12", "C13"]),
